@@ -5,12 +5,17 @@
    Readers: the real reader ran on some text; the model reader must give the same result on the same token
    lines (same genome, or an error where the implementation returned one, or a panic where it panicked). *)
 From Coq Require Export String.
-From NeatModel Require Import Res F64 Genome GenomeLit Plain.
+From NeatModel Require Import Res F64 Genome GenomeLit Plain Tree.
 
 Inductive go_pop :=
 | PopOk (gs : list rgenome) (next_node next_innov : Z)
 | PopErr
 | PopPanic.
+
+Inductive go_yaml :=
+| YOk (g : ygenome)
+| YErr
+| YPanic.
 
 Inductive c15_obs :=
 | ObsWrite (g : genome) (go : option (list line))                     (* Genome.Write *)
@@ -18,7 +23,10 @@ Inductive c15_obs :=
 | ObsOrgWrite (o : organism) (go : option (list line))                (* Organism.MarshalBinary *)
 | ObsOrgRead (ls : list line) (go : option rorganism)                 (* Organism.UnmarshalBinary *)
 | ObsPopWrite (gs : list genome) (go : option (list line))            (* Population.Write *)
-| ObsPopRead (ls : list line) (go : go_pop).                          (* ReadPopulation *)
+| ObsPopRead (ls : list line) (go : go_pop)                           (* ReadPopulation *)
+| ObsYamlWrite (g : genome) (go : option tree)                        (* YAML writer, then yaml.v3 into interface{} *)
+| ObsYamlRead (t : tree) (go : go_yaml)                               (* YAML reader on a text that decodes to t *)
+| ObsExp (e : experiment (option champion)) (go : option (experiment rchampion)).  (* Experiment.Write then Read *)
 
 Record c15_case := { c15_id : Z; c15_reg : registry; c15_what : c15_obs }.
 
@@ -38,6 +46,22 @@ Definition TW := TWord.
 Arguments TW _%string.
 Definition RE (c : Z) (s : string) : Z * string := (c, s).
 Arguments RE _%Z _%string.
+
+Definition KV (k : string) (v : tree) : string * tree := (k, v).
+Arguments KV _%string _.
+Definition YG (core : rgenome) (ms : list mimo) : ygenome := {| y_core := core; y_modules := ms |}.
+Definition CH (fit : float) (win : bool) (gen : Z) (off err : float) (g : genome) : champion :=
+  {| c_fit := fit; c_winner := win; c_gen := gen; c_offspring := off; c_error := err; c_genome := g |}.
+Definition RCH (fit : float) (win : bool) (gen : Z) (off err : float) (g : rgenome) : rchampion :=
+  {| rc_fit := fit; rc_winner := win; rc_gen := gen; rc_offspring := off; rc_error := err; rc_genome := g |}.
+Definition GEN {C} (id ex : Z) (so : bool) (fi ag co : list float) (di ev no ge du tr : Z) (ch : C) : generation C :=
+  {| gn_id := id; gn_executed := ex; gn_solved := so; gn_fitness := fi; gn_age := ag; gn_complexity := co;
+     gn_diversity := di; gn_evals := ev; gn_nodes := no; gn_genes := ge; gn_duration := du; gn_trial := tr;
+     gn_champion := ch |}.
+Definition TR {C} (id : Z) (gs : list (generation C)) : trial C := {| tr_id := id; tr_gens := gs |}.
+Definition EXPT {C} (id : Z) (name : string) (ts : list (trial C)) : experiment C :=
+  {| ex_id := id; ex_name := name; ex_trials := ts |}.
+Arguments EXPT {C} _%Z _%string _.
 
 Definition write_matches (m : res (list line)) (go : option (list line)) : bool :=
   match m, go with
@@ -64,6 +88,30 @@ Definition c15_check (c : c15_case) : bool :=
     | _, _ => false
     end
   | ObsPopWrite gs go => write_matches (write_population reg gs) go
+  | ObsYamlWrite g go =>
+    match y_genome reg g, go with
+    | Ok t, Some gt => tree_eqb (yaml_lib il_g t) gt && tree_eqb gt (yaml_lib il_g t)
+    | GoErr _, None => true
+    | _, _ => false
+    end
+  | ObsYamlRead t go =>
+    match y_read reg t, go with
+    | Ok r, YOk r' => ygenome_eqb r r'
+    | GoErr _, YErr => true
+    | GoPanic _, YPanic => true
+    | _, _ => false
+    end
+  | ObsExp e go =>
+    match enc_experiment reg e with
+    | Ok s =>
+      match dec_experiment reg s, go with
+      | Ok (e', []), Some ge => experiment_eqb e' ge
+      | GoErr _, None => true
+      | _, _ => false
+      end
+    | GoErr _ => match go with None => true | Some _ => false end
+    | _ => false
+    end
   | ObsPopRead ls go =>
     match read_population reg ls, go with
     | Ok (gs, nn, ni), PopOk gs' nn' ni' => list_eqb rgenome_eqb gs gs' && Z.eqb nn nn' && Z.eqb ni ni'
